@@ -278,3 +278,40 @@ func snap(sb *strings.Builder, v reflect.Value, d int, seen map[uintptr]bool) {
 		sb.WriteString(v.Type().String())
 	}
 }
+
+// Variant returns a deep copy of the description with its leaf values changed in a way that is a pure
+// function of k (k = 0 returns an unchanged copy). Rendering one template with several variants makes
+// anything that wrongly survives from an earlier render (a value cached on a node, a recycled map) visible.
+func (v *Val) Variant(k int) *Val {
+	if v == nil {
+		return nil
+	}
+	c := *v
+	if k != 0 {
+		switch v.T {
+		case "str":
+			c.S = fmt.Sprintf("%s~%d", v.S, k)
+		case "int", "i64":
+			c.I = v.I + int64(k)
+		case "float":
+			c.F = v.F + float64(k)
+		case "bool":
+			if k%2 == 1 {
+				c.B = !v.B
+			}
+		}
+	}
+	if v.L != nil {
+		c.L = make([]*Val, len(v.L))
+		for i, e := range v.L {
+			c.L[(i+k)%len(v.L)] = e.Variant(k)
+		}
+	}
+	if v.M != nil {
+		c.M = make([]KV, len(v.M))
+		for i, kv := range v.M {
+			c.M[i] = KV{kv.K, kv.V.Variant(k)}
+		}
+	}
+	return &c
+}
